@@ -470,6 +470,19 @@ structure YTest where
   absM : Margins
   relM : Margins
   output : Option (List (String × Y))
+  /-- the runner's option `only_variables` (`none` = not given) -/
+  only : Option (List String) := none
+  /-- the runner's option `ignore_variables` -/
+  ignore : Option (List String) := none
+
+/-- `YamlItem.should_ignore_variable` -/
+def shouldIgnore (t : YTest) (var : String) : Bool :=
+  (match t.ignore with
+   | some l => l.contains var
+   | none => false) ||
+  (match t.only with
+   | some l => !l.contains var
+   | none => false)
 
 /-- one comparison the test performs -/
 structure Expectation where
@@ -715,8 +728,14 @@ def selectInst (w : Sim) (x : Expectation) (vec : List Val) : Except String (Lis
       | some v => .ok [v]
       | none => .error "index out of bounds"
 
-/-- `check_variable` on one leaf does not raise -/
-def checkExpectation (w : Sim) (t : YTest) (x : Expectation) : Bool :=
+/-- `population.get_index(instance_id)` in `check_output`, before `check_variable` is entered -/
+def instKnown (w : Sim) (x : Expectation) : Bool :=
+  match x.inst with
+  | none => true
+  | some id => (w.index (x.entity.getD "") id).isSome
+
+/-- `check_variable` on one leaf, options set aside -/
+def checkValue (w : Sim) (t : YTest) (x : Expectation) : Bool :=
   match x.period with
   | none => false                                   -- calculate(variable, None) raises
   | some per =>
@@ -733,6 +752,13 @@ def checkExpectation (w : Sim) (t : YTest) (x : Expectation) : Bool :=
           | .ok a, .ok r => assertNear ty vs x.expected a r
           | .ok _, .error _ => false
           | .error _, _ => false
+
+/-- one leaf of the `output` section does not raise: the instance is looked up first (an unknown
+one raises whatever the options), an ignored variable is skipped, anything else is compared -/
+def checkExpectation (w : Sim) (t : YTest) (x : Expectation) : Bool :=
+  if instKnown w x = false then false
+  else if shouldIgnore t x.var = true then true
+  else checkValue w t x
 
 /-- the verdict of `YamlItem.runtest` on a built simulation: `true` = the test passes -/
 def verdictSim (w : Sim) (t : YTest) : Bool :=
